@@ -66,6 +66,30 @@ def sim_check(prop, tier, seed, gen_kwargs_list, n_quick, n_thorough, oracle_pro
     proofs_ok, ready = prepare(rep, bins=("sim",))
     if not ready:
         return rep.finish()
+    oracle_fail, diverged = sim_collect(rep, prop, tier, rng, seed, gen_kwargs_list, n_quick, n_thorough, oracle_props, extra_assumptions,
+                                        rule_extra, settle, known_ids, custom_scripts, top_level=True)
+    return sim_conclude(rep, prop, proofs_ok, oracle_fail, diverged, model_name)
+
+
+def sim_conclude(rep, prop, proofs_ok, oracle_fail, diverged, model_name):
+    rep.cov["disagreements_checked"] = rep.cov.get("disagreements_checked", 0) + len(diverged)
+    if oracle_fail:
+        f = oracle_fail[0]
+        rep.violation("oracle", dict(what="implementation violates %s on a concrete script" % prop, problem=f["problem"], script=f.get("shrunk", f["script"]),
+                                     original_script=f["script"] if "shrunk" in f else None,
+                                     replay_cmd=".cache/target/debug/sim < script-lines"), True)
+    elif diverged:
+        f = diverged[0]
+        rep.violation("correspondence", dict(what="model %s and the implementation disagree; the theorems of Properties/%s*.v no longer describe the code" % (model_name, prop),
+                                             correspondence="sim step observations vs %s" % model_name,
+                                             first_divergence=f.get("shrunk_divergence", f["divergence"]), script=f.get("shrunk", f["script"])), False)
+    elif not proofs_ok:
+        rep.violation("proof", dict(what="Coq obligation no longer checks", failure=rep.coq_failure), False)
+    return rep.finish()
+
+
+def sim_collect(rep, prop, tier, rng, seed, gen_kwargs_list, n_quick, n_thorough, oracle_props=None, extra_assumptions=(),
+                rule_extra="", settle=True, known_ids=(), custom_scripts=None, top_level=False):
     oracle_props = oracle_props or {prop}
     n = n_quick if tier == "quick" else n_thorough
     batch, metas, names = [], [], []
@@ -151,30 +175,22 @@ def sim_check(prop, tier, seed, gen_kwargs_list, n_quick, n_thorough, oracle_pro
             pr = [p for p in tr.run(settle_from=sf) if p["prop"] == prop]
             rep.known_finding(fnd["id"], "%s | witness %s: %s" % (fnd["what"], fnd["witness_script"], pr[0]["why"] if pr else "witness no longer fails"))
 
-    rep.cov["evaluations"] = len(batch)
-    rep.cov["traces_validated_against_impl"] = len(batch)
-    rep.cov["distinct_nontrivial"] = len(nontriv)
-    rep.cov["steps_total"] = sum(len(b) for b in batch)
-    rep.cov["rule"] = ("random scripts over the real server + 1..3 client apps (spawn/despawn/insert/remove/mutate/marker/visibility/pre-spawn mapping ops, 1..n frames per tick, "
-                       "per-message deliver/hold/drop decisions allowed by the channel contracts, held update channel, late joiners%s), followed by a lossless settle phase; "
-                       "every step's observations (decoded messages, client view through the entity map, confirm histories, acks) compared with the extracted Coq model; "
-                       "implementation-side oracles decide the property text. non-trivial = distinct script with >= 2 update and >= 2 mutate messages" % rule_extra)
-    rep.cov["input_distribution"] = stats_total
-    rep.cov["samples"] = [dict(script=batch[-1][:25], first_observations=results[-1][1][:8])]
-    rep.assumptions = ["single-component rules; change-stamp distances below 2^31; fewer than 2^16 mutate messages in flight per client",
+    cov = dict(evaluations=len(batch), traces_validated_against_impl=len(batch), distinct_nontrivial=len(nontriv), steps_total=sum(len(b) for b in batch),
+               rule=("random scripts over the real server + 1..3 client apps (spawn/despawn/insert/remove/mutate/marker/visibility/pre-spawn mapping ops, 1..n frames per tick, "
+                     "per-message deliver/hold/drop decisions allowed by the channel contracts, held update channel, late joiners%s), followed by a lossless settle phase; "
+                     "every step's observations (decoded messages, client view through the entity map, confirm histories, acks, events) compared with the extracted Coq model; "
+                     "implementation-side oracles decide the property text. non-trivial = distinct script with >= 2 update and >= 2 mutate messages" % rule_extra),
+               input_distribution=stats_total, samples=[dict(script=batch[-1][:25], first_observations=results[-1][1][:8])])
+    sim_assumptions = ["single-component rules; change-stamp distances below 2^31; fewer than 2^16 mutate messages in flight per client",
                        "the distribution of a tick's mutated entities over mutate messages is an oracle input of the model (validated to be a partition); Layer 0 (C10) proves the real split loop",
-                       "open known-finding classes are outside the generated stream by construction: D02 periodic, D16 recursive client despawn, D17 placeholder orphan, D19 tick 0, D22 visibility after marker removal"] + list(extra_assumptions)
-    rep.cov["disagreements_checked"] = len(diverged)
-    if oracle_fail:
-        f = oracle_fail[0]
-        rep.violation("oracle", dict(what="implementation violates %s on a concrete script" % prop, problem=f["problem"], script=f.get("shrunk", f["script"]),
-                                     original_script=f["script"] if "shrunk" in f else None,
-                                     replay_cmd=".cache/target/debug/sim < script-lines"), True)
-    elif diverged:
-        f = diverged[0]
-        rep.violation("correspondence", dict(what="model %s and the implementation disagree; the theorems of Properties/%s.v no longer describe the code" % (model_name, prop),
-                                             correspondence="sim step observations vs %s.sys_step" % model_name,
-                                             first_divergence=f.get("shrunk_divergence", f["divergence"]), script=f.get("shrunk", f["script"])), False)
-    elif not proofs_ok:
-        rep.violation("proof", dict(what="Coq obligation no longer checks", failure=rep.coq_failure), False)
-    return rep.finish()
+                       "open known-finding classes are outside the generated stream by construction: D02 periodic, D16 recursive client despawn, D17 placeholder orphan, D19 tick 0, D22 visibility after marker removal, D25 reference target re-replicated"] + list(extra_assumptions)
+    if top_level:
+        rep.cov.update(cov)
+        rep.assumptions = sim_assumptions
+    else:
+        rep.cov["sim"] = cov
+        rep.cov["evaluations"] = rep.cov.get("evaluations", 0) + cov["evaluations"]
+        rep.cov["traces_validated_against_impl"] = rep.cov.get("traces_validated_against_impl", 0) + cov["traces_validated_against_impl"]
+        rep.cov["distinct_nontrivial"] = rep.cov.get("distinct_nontrivial", 0) + cov["distinct_nontrivial"]
+        rep.assumptions = list(rep.assumptions) + sim_assumptions
+    return oracle_fail, diverged
